@@ -1474,6 +1474,8 @@ impl<'a> CompilerState<'a> {
                                             let mut v = Vec::new();
 
                                             for pxx in px.into_inner() {
+                                                // An error in an element is reported where the element is
+                                                let start = pxx.as_span().start();
                                                 match pxx.as_rule() {
                                                     Rule::calc_expr => v.push(VariableValue::Int(
                                                         self.parse_calc(pxx.into_inner())?,
@@ -1558,6 +1560,8 @@ impl<'a> CompilerState<'a> {
                                         } else {
                                             let mut v = Vec::new();
                                             for pxx in px.into_inner() {
+                                                // An error in an element is reported where the element is
+                                                let start = pxx.as_span().start();
                                                 match pxx.as_rule() {
                                                     Rule::calc_expr => v.push((
                                                         "__address__".into(),
